@@ -211,34 +211,34 @@ Proof.
   rewrite hop_count_app, IH. unfold hop_count. cbn [fold_right]. lia.
 Qed.
 
-Lemma hop_count_map_info (f : infof -> infof) l :
-  hop_count (map (fun s : seg => (f (fst s), snd s)) l) = hop_count l.
-Proof. unfold hop_count. induction l as [|s l IH]; cbn [map fold_right fst snd]; [reflexivity|]. rewrite IH. reflexivity. Qed.
+Lemma hop_count_map_info (f : info_f -> info_f) l :
+  hop_count (map (fun s : seg => mkSeg (f (s_info s)) (s_hops s)) l) = hop_count l.
+Proof. unfold hop_count. induction l as [|s l IH]; cbn [map fold_right s_hops]; [reflexivity|]. rewrite IH. reflexivity. Qed.
 
 Lemma hop_count_map_rev l :
-  hop_count (map (fun s : seg => (fst s, rev (snd s))) l) = hop_count l.
+  hop_count (map (fun s : seg => mkSeg (s_info s) (rev (s_hops s))) l) = hop_count l.
 Proof.
-  unfold hop_count. induction l as [|s l IH]; cbn [map fold_right fst snd]; [reflexivity|].
+  unfold hop_count. induction l as [|s l IH]; cbn [map fold_right s_hops]; [reflexivity|].
   rewrite IH, rev_length. reflexivity.
 Qed.
 
 (** all hop fields of a path, in travel order *)
-Definition all_hops (segs : list seg) : list hopf := flat_map (fun s : seg => snd s) segs.
+Definition all_hops (segs : list seg) : list hop_f := flat_map s_hops segs.
 
 Lemma all_hops_app a b : all_hops (a ++ b) = all_hops a ++ all_hops b.
 Proof. unfold all_hops. apply flat_map_app. Qed.
 
 Lemma all_hops_rev_rev (l : list seg) :
-  all_hops (map (fun s : seg => (fst s, rev (snd s))) (rev l)) = rev (all_hops l).
+  all_hops (map (fun s : seg => mkSeg (s_info s) (rev (s_hops s))) (rev l)) = rev (all_hops l).
 Proof.
   induction l as [|s l IH]; cbn [rev]; [reflexivity|].
-  rewrite map_app, all_hops_app, IH. unfold all_hops at 2 3. cbn [map flat_map fst snd].
+  rewrite map_app, all_hops_app, IH. unfold all_hops at 2 3. cbn [map flat_map s_hops].
   rewrite app_nil_r, rev_app_distr. reflexivity.
 Qed.
 
-Lemma all_hops_map_info (f : infof -> infof) l :
-  all_hops (map (fun s : seg => (f (fst s), snd s)) l) = all_hops l.
-Proof. unfold all_hops. induction l as [|s l IH]; cbn [map flat_map fst snd]; [reflexivity|]. rewrite IH. reflexivity. Qed.
+Lemma all_hops_map_info (f : info_f -> info_f) l :
+  all_hops (map (fun s : seg => mkSeg (f (s_info s)) (s_hops s)) l) = all_hops l.
+Proof. unfold all_hops. induction l as [|s l IH]; cbn [map flat_map s_hops]; [reflexivity|]. rewrite IH. reflexivity. Qed.
 
 (** the reversed standard path: same number of segments and hops, the hop fields in reverse
     order (unchanged), every info field's construction-direction flag toggled, the segments in
@@ -249,7 +249,7 @@ Lemma std_reverse_spec ci ch segs q :
     q = DP_Std ci' ch' segs' /\
     length segs' = length segs /\
     all_hops segs' = rev (all_hops segs) /\
-    map fst segs' = rev (map (fun s : seg => toggle_cons_dir (fst s)) segs) /\
+    map s_info segs' = rev (map (fun s : seg => toggle_cons_dir (s_info s)) segs) /\
     ch < hop_count segs /\ ci < N.of_nat (length segs) /\
     ch' = trunc 8 (hop_count segs - ch - 1) /\ ci' = trunc 8 (N.of_nat (length segs) - ci - 1).
 Proof.
@@ -263,7 +263,7 @@ Proof.
   refine (conj _ (conj _ (conj _ (conj _ (conj _ (conj _ _)))))); try reflexivity; try lia.
   - rewrite map_length, rev_length, map_length. reflexivity.
   - rewrite all_hops_rev_rev, all_hops_map_info. reflexivity.
-  - rewrite map_map. cbn [fst]. rewrite <- map_rev. rewrite map_map. cbn [fst]. rewrite map_rev. reflexivity.
+  - rewrite map_map. cbn [s_info]. rewrite <- map_rev. rewrite map_map. cbn [s_info]. rewrite map_rev. reflexivity.
 Qed.
 
 (** * 5. the receive loop *)
@@ -387,4 +387,125 @@ Proof.
   - destruct (is_panic (recv_step we b v p)); [destruct H|].
     destruct (IH H) as (Hw & v' & p' & Hin & Hs & He). split; [exact Hw|].
     exists v', p'. split; [right; exact Hin|]. split; assumption.
+Qed.
+
+(** * 6. an echo request with decodable addresses and a reversible path IS answered: none of
+    the reads after the type check can panic *)
+
+Lemma scmp_header_size_ge8 ty : 8 <= scmp_header_size ty.
+Proof.
+  unfold scmp_header_size.
+  repeat match goal with |- context [if ?c then _ else _] => destruct c end; vm_compute; discriminate.
+Qed.
+
+Lemma sub_prefix_blen (b : bytes) n : n <= blen b -> blen (sub b 0 n) = n.
+Proof. unfold sub, blen. intros H. rewrite N.sub_0_r. cbn [N.to_nat skipn]. rewrite firstn_length. lia. Qed.
+
+Lemma required_size_scmp_msg_bounds ty b n :
+  required_size_scmp_msg ty b = Ok n -> 8 <= n /\ n <= blen b.
+Proof.
+  unfold required_size_scmp_msg. pose proof (scmp_header_size_ge8 ty) as G.
+  destruct (blen b <? scmp_header_size ty) eqn:E; [discriminate|].
+  intros H. inversion H; subst n. destruct (scmp_fixed_size ty); lia.
+Qed.
+
+Lemma required_size_scmp_bounds b n : required_size_scmp b = Ok n -> 8 <= n /\ n <= blen b.
+Proof.
+  unfold required_size_scmp.
+  destruct (required_size_scmp_msg 256 b) as [m|e|s]; [|destruct e; discriminate|discriminate].
+  unfold obind. destruct (get_unchecked b 0 m); try discriminate.
+  destruct (rd _ _ _); try discriminate. apply required_size_scmp_msg_bounds.
+Qed.
+
+Lemma try_scmp_len pl sv rest : try_from_slice KScmp pl = Ok (sv, rest) -> 8 <= blen sv.
+Proof.
+  unfold try_from_slice. cbn [required_size]. unfold obind.
+  destruct (required_size_scmp pl) as [n| |] eqn:E; try discriminate.
+  destruct (blen pl <? n); [discriminate|]. intros H. inversion H; subst.
+  destruct (required_size_scmp_bounds _ _ E) as [G L]. rewrite sub_prefix_blen; assumption.
+Qed.
+
+Lemma as_scmp_len v sv : as_scmp v = Ok (Some sv) -> 8 <= blen sv.
+Proof.
+  unfold as_scmp, obind. destruct (pkt_header v); try discriminate.
+  destruct (hv_next_header _); try discriminate.
+  destruct (negb _); [discriminate|].
+  destruct (try_from_slice KScmpPkt v) as [[pv r]| |]; try discriminate.
+  destruct (pkt_payload pv) as [pl| |]; try discriminate.
+  destruct (try_from_slice KScmp pl) as [[sv' r']| |] eqn:E; try discriminate.
+  intros H. inversion H; subst. eapply try_scmp_len. exact E.
+Qed.
+
+Lemma rd_ok v r bits :
+  (size_bytes r <=? LANE_BYTES) = true -> byte_hi r <= blen v -> exists x, rd v r bits = Ok x.
+Proof.
+  intros H1 H2. unfold rd. rewrite H1. cbn [negb].
+  destruct (byte_hi r <=? blen v) eqn:E; [|lia]. cbn [negb]. eexists. reflexivity.
+Qed.
+
+Lemma wr_ok v r x :
+  (size_bytes r <=? LANE_BYTES) = true -> byte_hi r <= blen v ->
+  exists v', wr v r x = Ok v' /\ blen v' = blen v.
+Proof.
+  intros H1 H2. unfold wr. rewrite H1. cbn [negb].
+  destruct (byte_hi r <=? blen v) eqn:E; [|lia]. cbn [negb]. eexists. split; [reflexivity|].
+  unfold blen. rewrite lane_write_length; [reflexivity|exact H2].
+Qed.
+
+Lemma echo_tail_ok sv : 8 <= blen sv -> exists dr, scmp_tail_range T_ECHO_REQUEST sv = Ok dr.
+Proof.
+  intros H. unfold scmp_tail_range. assert (E : scmp_header_size T_ECHO_REQUEST = 8) by reflexivity.
+  rewrite E. unfold index_range.
+  assert (L : byte_lo (8 * 8, (blen sv - 8) * 8) = 8) by (unfold byte_lo, r_start; cbn [fst]; lia).
+  assert (U : byte_hi (8 * 8, (blen sv - 8) * 8) = blen sv) by (unfold byte_hi, r_end; cbn [fst snd]; lia).
+  rewrite L, U. destruct ((8 <=? blen sv) && (blen sv <=? blen sv)) eqn:C; [|lia].
+  cbn [obind]. eexists. reflexivity.
+Qed.
+
+Lemma encode_echo_reply_ok id sq data : exists pl, encode_echo_reply id sq data = Ok pl.
+Proof.
+  unfold encode_echo_reply.
+  assert (EH : ScmpEchoReply_HEADER_SIZE_BYTES = 8) by reflexivity. rewrite EH.
+  set (size := blen data + 8).
+  assert (Z : blen (zeros size) = size) by apply zeros_blen.
+  destruct (wr_ok (zeros size) ScmpEchoReply_TYPE_RNG T_ECHO_REPLY eq_refl) as (b1 & E1 & L1);
+    [vm_compute byte_hi; lia|].
+  rewrite E1. cbn [obind].
+  destruct (wr_ok b1 ScmpEchoReply_CODE_RNG 0 eq_refl) as (b2 & E2 & L2); [vm_compute byte_hi; lia|].
+  rewrite E2. cbn [obind].
+  destruct (wr_ok b2 ScmpEchoReply_CHECKSUM_RNG 0 eq_refl) as (b3 & E3 & L3); [vm_compute byte_hi; lia|].
+  rewrite E3. cbn [obind].
+  destruct (wr_ok b3 ScmpEchoReply_IDENTIFIER_RNG (trunc 16 id) eq_refl) as (b4 & E4 & L4); [vm_compute byte_hi; lia|].
+  rewrite E4. cbn [obind].
+  destruct (wr_ok b4 ScmpEchoReply_SEQUENCE_NUMBER_RNG (trunc 16 sq) eq_refl) as (b5 & E5 & L5); [vm_compute byte_hi; lia|].
+  rewrite E5. cbn [obind].
+  assert (L : byte_lo (8 * 8, (size - 8) * 8) = 8) by (unfold byte_lo, r_start; cbn [fst]; lia).
+  assert (U : byte_hi (8 * 8, (size - 8) * 8) = size) by (unfold byte_hi, r_end; cbn [fst snd]; lia).
+  rewrite L, U. unfold index_range.
+  assert (D : size - 8 = blen data) by lia. rewrite D.
+  destruct ((0 <=? blen data) && (blen data <=? blen data)) eqn:C; [|lia]. cbn [obind].
+  unfold splice. assert (B5 : blen b5 = size) by congruence. rewrite B5.
+  destruct ((8 <=? size) && (size <=? size)) eqn:C2; [|lia]. cbn [negb].
+  rewrite (sub_prefix_blen data (blen data)) by lia. rewrite D, N.eqb_refl. cbn [negb].
+  eexists. reflexivity.
+Qed.
+
+(** the converse of [echo_handle_some] *)
+Lemma echo_handle_answers v p sv rp sa da :
+  as_scmp v = Ok (Some sv) -> scmp_type sv = Ok T_ECHO_REQUEST ->
+  dp_reverse p = Some rp -> src_scion_addr v = Ok (Some sa) -> dst_scion_addr v = Ok (Some da) ->
+  exists r, echo_handle v p = Ok (Some r).
+Proof.
+  intros H1 H2 H3 H4 H5. pose proof (as_scmp_len v sv H1) as L.
+  unfold echo_handle. rewrite H1. cbn [obind]. rewrite H2. cbn [obind].
+  assert (A : existsb (N.eqb T_ECHO_REQUEST) echo_answered_types = true) by reflexivity.
+  rewrite A. cbn [negb].
+  destruct (rd_ok sv ScmpEchoRequest_IDENTIFIER_RNG 16 eq_refl) as (id & Eid); [vm_compute byte_hi; lia|].
+  rewrite Eid. cbn [obind].
+  destruct (rd_ok sv ScmpEchoRequest_SEQUENCE_NUMBER_RNG 16 eq_refl) as (sq & Esq); [vm_compute byte_hi; lia|].
+  rewrite Esq. cbn [obind].
+  destruct (echo_tail_ok sv L) as (dr & Edr). rewrite Edr. cbn [obind].
+  rewrite H3, H4. cbn [obind]. destruct sa as [sia sh]. rewrite H5. cbn [obind]. destruct da as [dia dh].
+  destruct (encode_echo_reply_ok id sq (sub sv (fst dr) (snd dr))) as (pl & Epl). rewrite Epl. cbn [obind].
+  eexists. reflexivity.
 Qed.
